@@ -61,6 +61,9 @@ func c10Scenario(p c10Params) Scenario {
 		case "garbage", "undersize", "oversize", "unknowntag":
 			peer.Inject = map[int][]byte{p.At: c10BadFrame(p.Fault, p.Dotu)}
 			peer.InjectSameSeg = p.SameSeg
+		case "wrongtype":
+			// a well-formed reply of the wrong kind under the tag of an outstanding call
+			peer.Kinds[p.At] = "wrongtype"
 		case "peerclose":
 			peer.CloseAfterBatch = true
 		case "cut":
@@ -106,7 +109,7 @@ func c10Scenario(p c10Params) Scenario {
 				return &Viol{Sig: "C10/call-blocked-forever/" + g.Op, Msg: fmt.Sprintf("a caller is blocked for ever in %s after the connection failed (parked: %v)", g.Op, x.Parked), Detail: detail}
 			}
 		}
-		failed := p.Fault != "none"
+		failed := p.Fault != "none" && p.Fault != "wrongtype" // a reply of the wrong kind fails its own call, not the connection
 		// which calls had their complete reply delivered before the failure
 		tagOf := map[uint32]uint16{}
 		for _, m := range peer.Seen {
@@ -130,6 +133,14 @@ func c10Scenario(p c10Params) Scenario {
 				complete = complete && end <= p.At
 			case "garbage", "undersize", "oversize", "unknowntag":
 				complete = complete && end <= peer.InjectedAt
+			case "wrongtype":
+				// every call returns; whether the others succeed is the client's choice, but success must be the real reply
+				if r.err == nil {
+					if msg := r.verify("ok", p.Dotu, nil); msg != "" {
+						return &Viol{Sig: "C10/wrong-result-after-failure", Msg: fmt.Sprintf("call %s fid %d: %s", r.spec.Kind, r.spec.Fid, msg), Detail: detail}
+					}
+				}
+				continue
 			case "unmount", "writefail", "peerclose":
 				// the reply may or may not have been read before the client itself tore the
 				// connection down (a failed write closes the socket, discarding unread replies): either outcome is fine, but success must be the real reply
@@ -224,6 +235,11 @@ func c10Scenarios(tier string) []Scenario {
 			}
 		}
 	}
+	for at := 0; at <= 1; at++ {
+		for _, one := range []bool{false, true} {
+			out = append(out, c10Scenario(c10Params{Calls: two, Fault: "wrongtype", At: at, OneWrite: one, Dotu: at == 1, Late: one, P: D + 1}))
+		}
+	}
 	// the same faults while the client's writer is blocked inside Write (peer not reading)
 	for i, f := range []string{"garbage", "undersize", "oversize", "unknowntag", "unmount", "peerclose"} {
 		for at := 0; at <= 1; at++ {
@@ -256,7 +272,7 @@ func c10Scenarios(tier string) []Scenario {
 func init() {
 	register(&Property{ID: "C10", Level: "model_checking",
 		Technique: "fault enumeration crossed with stateless model checking of the real client under the controlled scheduler; hangs decided at quiescence",
-		Rule:      "0-3 (thorough 4) outstanding calls plus an optional caller entering Rpc during the failure; faults: server-to-client stream cut after every byte offset of the scripted reply stream, client writes failing at 10 offsets inside the first requests, garbage / undersize / oversize / unknown-tag frames placed before, between and after complete replies (own segment and same segment), Unmount from another goroutine, peer closing; the frame faults, Unmount and peer close also while the client's writer is blocked inside Write (peer stopped reading after the first request); every schedule with at most D deviations from the default scheduler (delay bounding; quick D=1-3 by fault kind, thorough D=2-4); afterwards one more call. distinct = distinct per-object operation orders",
+		Rule:      "0-3 (thorough 4) outstanding calls plus an optional caller entering Rpc during the failure; faults: server-to-client stream cut after every byte offset of the scripted reply stream, client writes failing at 10 offsets inside the first requests, garbage / undersize / oversize / unknown-tag frames and well-formed replies of the wrong kind placed before, between and after complete replies (own segment and same segment), Unmount from another goroutine, peer closing; the frame faults, Unmount and peer close also while the client's writer is blocked inside Write (peer stopped reading after the first request); every schedule with at most D deviations from the default scheduler (delay bounding; quick D=1-3 by fault kind, thorough D=2-4); afterwards one more call. distinct = distinct per-object operation orders",
 		Assumptions: []string{"'within bounded time' is decided as: no reachable quiescent state in which a caller is blocked", "transport: a cut delivers exactly the bytes before the offset, then EOF"},
 		Scenarios:   c10Scenarios, QuickS: 180, ThoroughS: 1500})
 }
